@@ -294,6 +294,8 @@ def compound(ctx, F, adts, ma):
             ctx.check(n == want, "G6", "%s::%s" % (a["name"], meth), "%s() = str::from_utf8 of the %d bytes at offset %d" % (meth, w, o), i and i.get("span", ""), how=str(n)[:140], why=str(n)[:240])
         # checksum: wrapping byte sum over the RSDP bytes [8, 8 + L) == 0
         i = F.find(impl_self_path=a["path"], name="checksum_is_valid", impl_trait=None)
+        if len(i) != 1:
+            ctx.fail("ANCHOR", "%s::checksum_is_valid" % a["name"], "checksum_is_valid() exists (one instance)", a.get("span", ""), "%d found" % len(i))
         if len(i) == 1:
             ok, how = rsdp_checksum(F, i[0], slen, kind == "AcpiV2", a)
             ctx.check(ok, "G6", "%s::checksum_is_valid" % a["name"], "checksum_is_valid(): the wrapping u8 sum over the RSDP bytes [8, 8+%s) is compared with 0" % ("20" if kind == "AcpiV1" else "length (<= 36)"),
